@@ -208,6 +208,39 @@ var __c19 = (function () {
     }
     return r + "}";
   }
+  // dump of a reviver-walk result in the model's format: h = array hole
+  function hdump(v) {
+    if (v === null) return "z";
+    if (v === true) return "t";
+    if (v === false) return "f";
+    if (typeof v === "number") return "n" + __bits(v);
+    if (typeof v === "string") return "s" + hexOf(v);
+    if (typeof v !== "object") return "?" + typeof v;
+    var r, i;
+    if (A_isArray(v)) {
+      r = "[";
+      for (i = 0; i < v.length; i++) { if (i) r += ","; r += (S(i) in v) ? hdump(v[i]) : "h"; }
+      return r + "]";
+    }
+    var keys = R_ownKeys(v);
+    r = "{";
+    for (i = 0; i < keys.length; i++) { if (i) r += ","; r += hexOf(keys[i]) + ":" + hdump(v[keys[i]]); }
+    return r + "}";
+  }
+  function reviveCase(text, D, Z) {
+    var calls = [];
+    var r;
+    try {
+      r = nativeParse(text, function (k, v) {
+        calls[calls.length] = hexOf(k);
+        for (var i = 0; i < D.length; i++) if (D[i] === k) return undefined;
+        for (var j = 0; j < Z.length; j++) if (Z[j] === k) return null;
+        return v;
+      });
+    } catch (e) { return errName(e) === "SyntaxError" ? "err" : "throw:" + errName(e); }
+    var c = ""; for (var q = 0; q < calls.length; q++) { if (q) c += "."; c += calls[q]; }
+    return (r === undefined ? "undef" : "ok " + hdump(r)) + " C " + c;
+  }
   function resv(f) {
     var r;
     try { r = f(); } catch (e) { return "throw:" + errName(e); }
@@ -280,7 +313,7 @@ var __c19 = (function () {
     return cls;
   }
   return {
-    parseR: parseR, resv: resv,
+    parseR: parseR, resv: resv, reviveCase: reviveCase,
     stringify: stringify, native: nativeStringify, parse: nativeParse, dump: dump, errName: errName, res: res,
     hexOf: hexOf, asciiize: asciiize, gapClass: gapClass,
     defProp: function (o, k, v) { R_defProp(o, k, { value: v, writable: true, enumerable: true, configurable: true }); }
